@@ -1,4 +1,8 @@
+"""Run the quick tier of the relevant checks against every kept behaviour-preserving refactoring (refactors/<id>/patch.diff).
+usage: judge_refactors.py [group ...]; results under /tmp/refj (scratch), one summary line per (patch, check)."""
 import json, subprocess, sys, pathlib, concurrent.futures as cf
+pathlib.Path("/tmp/refj").mkdir(exist_ok=True)
+NODEMO = pathlib.Path("/tmp/refj/nodemo.py"); NODEMO.write_text("")
 MAP = {
  "decl": {"r1":["C12","C13"],"r2":["C12","C13"],"r3":["C12","C13"],"r4":["C13"],"r5":["C07"]},
  "objmodel": {"r1":["C05","C08","C09","C07"],"r2":["C10","C08"],"r3":["C07","C02"],"r4":["C10","C09"],"r5":["C03","C08","C09"]},
@@ -20,7 +24,7 @@ def run(j):
     out=pathlib.Path(f"/tmp/refj/{g}-{r}.{p}.json")
     if out.exists():
         return j, json.loads(out.read_text())
-    pr=subprocess.run(["/venv/bin/python","/verif/harness/seedtest.py",p,str(patch),"/tmp/rf/nodemo.py","--skip-suite"],capture_output=True,text=True,cwd="/verif")
+    pr=subprocess.run(["/venv/bin/python","/verif/harness/seedtest.py",p,str(patch),str(NODEMO),"--skip-suite"],capture_output=True,text=True,cwd="/verif")
     try: d=json.loads(pr.stdout)
     except Exception: d={"error":(pr.stdout+pr.stderr)[-500:]}
     out.write_text(json.dumps(d))
